@@ -226,3 +226,42 @@ fn c20_twin_must_fail() {
     }
     assert!(false, "twin: reachability witness");
 }
+
+/// Rendering, on concrete border ids only (core::fmt on a symbolic integer is out of CBMC's reach,
+/// DESIGN §5 C20): "HP:" + 7 zero-padded digits (more digits above 9 999 999), and parsing the
+/// rendering returns the id. These are concrete sanity runs through the real Display code.
+fn display_roundtrip(n: u32, expected: &str) {
+    let id = HpoTermId::from_u32(n);
+    let s = id.to_string();
+    let sb = s.as_bytes();
+    let eb = expected.as_bytes();
+    assert!(sb.len() == eb.len(), "rendered length");
+    let mut i = 0;
+    while i < eb.len() {
+        assert!(sb[i] == eb[i], "rendered text");
+        i += 1;
+    }
+    let back = HpoTermId::try_from(s.as_str());
+    assert!(matches!(back, Ok(x) if x == id), "parsing the rendering returns the id");
+    core::mem::forget(back);
+    core::mem::forget(s);
+}
+
+#[kani::proof]
+#[kani::unwind(16)]
+fn c20_display_border_ids_low() {
+    display_roundtrip(0, "HP:0000000");
+    display_roundtrip(1, "HP:0000001");
+    display_roundtrip(118, "HP:0000118");
+    display_roundtrip(9_999_999, "HP:9999999");
+    kani::cover!(true, "four concrete ids rendered");
+}
+
+#[kani::proof]
+#[kani::unwind(16)]
+fn c20_display_border_ids_high() {
+    display_roundtrip(10_000_000, "HP:10000000");
+    display_roundtrip(10_000_118, "HP:10000118");
+    display_roundtrip(u32::MAX, "HP:4294967295");
+    kani::cover!(true, "three concrete ids above the HPO id space rendered");
+}
